@@ -385,15 +385,21 @@ Qed.
 Theorem sentry_one_line : ge32 (sentry_format cfg qtver eid m).
 Proof. apply compact_no_control. Qed.
 
+(* routed names carry scalar values (strings, numbers, booleans): the case in which nothing is lost *)
+Hypothesis Hsc : routed_scalar (s_attrs m) = true.
 Lemma conserved_suffix : forall l pre, s_attrs m = pre ++ l -> attrs_conserved ev l = true.
 Proof.
   induction l as [|[k v] r IH]; intros pre E; [reflexivity|]. cbn [attrs_conserved].
   rewrite (IH (pre ++ [(k, v)])) by (rewrite <- app_assoc; exact E). rewrite andb_true_r.
   destruct (has_key k r) eqn:Hk; [reflexivity|].
   pose proof (route_of_spec k) as Hr. destruct (route_of k spec_routes) as [[sl name]|].
-  - destruct Hr as [Hin Hrt]. unfold ev.
+  - destruct Hr as [Hin Hrt].
+    assert (Hs : scalarb v = true).
+    { unfold routed_scalar in Hsc. rewrite forallb_forall in Hsc. specialize (Hsc (k, v)). cbn [fst snd] in Hsc.
+      rewrite Hrt in Hsc. apply Hsc. rewrite E. apply in_or_app. right. left. reflexivity. }
+    rewrite Hs. unfold ev.
     rewrite (routed_attribute_in_slot _ _ qtver eid m sl name k v pre r Hin E Hk).
-    rewrite (routed_not_in_extra _ _ qtver eid m k Hrt). cbn [opt_json_eqb]. rewrite json_eqb_refl. reflexivity.
+    rewrite (routed_not_in_extra _ _ qtver eid m k Hrt). cbn [opt_json_eqb absent]. rewrite json_eqb_refl. reflexivity.
   - unfold ev. rewrite (other_attribute_in_extra _ _ qtver eid m k v pre r E Hk Hr). apply json_eqb_refl.
 Qed.
 Theorem sentry_oracle_holds : is_hex32 eid = true -> prop_c18_b m (sentry_format cfg qtver eid m) = true.
@@ -412,4 +418,37 @@ Lemma routed_in_spec sl name k : In (sl, (name, k)) spec_routes -> is_routed k =
 Proof.
   intros H. unfold is_routed, spec_routed. apply existsb_exists. exists k. split; [|apply seqb_refl].
   apply in_map_iff. exists (sl, (name, k)). split; [reflexivity|exact H].
+Qed.
+
+(* ---------- what is NOT true of the faithful model: a routed name holding a list / map / null ---------- *)
+(* QVariant::toString() of such a value is the empty string: the slot holds "" and the attribute is
+   excluded from extra, so its value occurs nowhere in the event *)
+Definition lost_msg : smsg := {|
+  s_msg := {| mtype := 1; mtext := [104; 105]; mfmt := None; mfile := None; mfunc := None; mcat := None;
+              mline := 1%Z; mtime := []; mtid := 1%Z; mattrs := [(k_appname, JArr [JNum 1%Z; JNum 2%Z])] |};
+  s_time_ms := 0%Z |}.
+Lemma routed_nonscalar_lost cfg : sentry_cfg_goodb cfg = true ->
+  exists m qtver eid, wf_msg (s_msg m) /\ time_ok (s_time_ms m) /\ units qtver /\ is_hex32 eid = true
+    /\ s_attrs m = [(k_appname, JArr [JNum 1%Z; JNum 2%Z])]
+    /\ slot_get (event_members (sdk_name cfg) (sdk_version cfg) qtver eid m) STag k_app_name = Some (JStr [])
+    /\ get2 (event_members (sdk_name cfg) (sdk_version cfg) qtver eid m) k_extra k_appname = None
+    /\ prop_c18_b m (sentry_format cfg qtver eid m) = false.
+Proof.
+  intros G. exists lost_msg, [53], (id128_hex 0).
+  assert (Hm : wf_msg (s_msg lost_msg)).
+  { unfold wf_msg. cbn [lost_msg s_msg mtype mtext mfile mfunc mcat mtime mattrs cstr]. split; [reflexivity|].
+    repeat split; try (apply unitsb_units; reflexivity). }
+  assert (Ht : time_ok (s_time_ms lost_msg)) by (unfold time_ok; cbn; lia).
+  assert (Hq : units [53]) by (apply unitsb_units; reflexivity).
+  assert (He : units (id128_hex 0)) by (apply unitsb_units; reflexivity).
+  assert (Hslot : slot_get (event_members (sdk_name cfg) (sdk_version cfg) [53] (id128_hex 0) lost_msg) STag k_app_name = Some (JStr [])).
+  { apply (routed_attribute_in_slot _ _ [53] (id128_hex 0) lost_msg STag k_app_name k_appname (JArr [JNum 1%Z; JNum 2%Z]) [] []);
+      [cbn; tauto|reflexivity|reflexivity]. }
+  assert (Hex : get2 (event_members (sdk_name cfg) (sdk_version cfg) [53] (id128_hex 0) lost_msg) k_extra k_appname = None)
+    by (apply routed_not_in_extra; reflexivity).
+  repeat (split; [first [assumption | reflexivity]|]).
+  unfold prop_c18_b. rewrite (sentry_roundtrip cfg G [53] (id128_hex 0) lost_msg Hq He Hm Ht).
+  apply andb_false_intro2. change (s_attrs lost_msg) with [(k_appname, JArr [JNum 1%Z; JNum 2%Z])].
+  cbn [attrs_conserved has_key existsb]. change (route_of k_appname spec_routes) with (Some (STag, k_app_name)).
+  cbn [scalarb]. rewrite Hslot, Hex. reflexivity.
 Qed.
